@@ -402,6 +402,20 @@ def literal_texts(run):
     judge_events(run, evs, 'literal_texts')
 
 
+def value_exponents(run):
+    """VALUE of numeric texts in exponent notation, as Excel itself writes large and small numbers (upper-case E, optional sign):
+    the number the text denotes, judged exactly"""
+    from fractions import Fraction
+    cases = [('1E3', 1000), ('1e3', 1000), ('2.5E-1', Fraction(1, 4)), ('-4E2', -400), ('1E+2', 100), ('1.5e+1', 15), ('7E0', 7), ('12E-2', Fraction(12, 100)), ('1E+16', 10 ** 16)]
+    p = repo.Probe(['=VALUE(A1)'] + [f'=VALUE("{t}")' for t, _ in cases])
+    for i, (t, w) in enumerate(cases):
+        for mode, r in (('cell', p.eval([(0, 0, 0, t)], idxs=(0,))[0]), ('literal', p.eval(None, idxs=(i + 1,))[0])):
+            ok = r[0] == 'val' and isinstance(r[1], (int, float)) and not isinstance(r[1], bool) and Fraction(r[1]) == Fraction(float(w))
+            run.judge({'in': {'f': 'VALUE', 't': t, 'p': '', 'a': [], 'mode': mode}, 'ideal': str(w), 'obs': str(r[1])[:60] if r[0] == 'val' else f'raises {type(r[1]).__name__}', 'kind': 'value_exp'}, ok,
+                      clause=f'VALUE({t!r}) ({mode}) = {r[1]!r}, the text denotes {w}', part='value_exp')
+            run.traces_validated += 1
+
+
 def check(run):
     run.rule = ('texts over a mixed-case alphabet with wildcard and regex-special characters enumerated by TLC: LEFT/RIGHT/MID for every text x counts '
                 'and positions -1..L+2 (+ the rebuild identity), SEARCH for every (pattern, text) x start position, &/CONCATENATE operand vectors, '
@@ -418,10 +432,17 @@ def check(run):
     gen(run)
     trace(run)
     literal_texts(run)
+    value_exponents(run)
 
 
 def replay(run, case):
     i = case['in']
+    if case.get('kind') == 'value_exp':
+        value_exponents(run)
+        return
+    if case.get('kind') == 'literal_texts':
+        literal_texts(run)
+        return
     f = i['f']
     if i.get('mode') == 'lit' and 'formula' in i:
         r = repo.Probe([i['formula']]).eval()[0]
